@@ -10,10 +10,10 @@ HOOK_COMMITS = subprocess.run(["git", "-C", "/repo", "log", "--format=%H %s", "-
 # id -> (technique, level text, level note, design ref)
 T = {
  "C01": ("runtime monitor on both boundaries: every inbound datagram of an enumerated classifier x function x ack x destination matrix is injected at HandleSpineMesssage and the complete outbound trace of every connection is compared with a response table written from the statement",
-         "held on every cell of the enumerated request matrix in two prior states from three peers; exploration because prior states and payloads are sampled",
+         "held on every cell of the completely enumerated request matrix (classifier x function x ack x destination kind x omitted device part, plus writes the data layer refuses) for every feature type, in two prior states, from three peers and from two source entities; exploration because prior states and payloads are sampled",
          "trusts encoding/json of the repository's own model types as the wire format; message handling is synchronous without approval callbacks (C12 covers those)", "4/C01"),
  "C02": ("reference-model monitor: a reflective fold of the restricted-exchange rules, written from the statement, is compared after every update (API, reply, notify) with DataCopy for every registered list function; uniqueness, ordering and idempotence asserted per step",
-         "held on generated update histories over all list functions and all filter shapes; exploration",
+         "held on generated update histories over all 83 list functions and all filter shapes incl. multi-match delete selectors, three delivery paths, and on concurrent commuting updates (part commute, plain and race build); exploration",
          "generator respects the well-formedness the statement presupposes (unique identifiers per update, selectors on key fields)", "4/C02"),
  "C03": ("runtime monitor with a shadow binding registry: data, taps of all peers and events are bracketed around every injected write in histories of bind/unbind/disconnect/entity removal",
          "held on generated interleaved histories from three peers; exploration", "shadow registry is the reference model of C09", "4/C03"),
@@ -32,15 +32,15 @@ T = {
  "C09": ("reference registry monitor; hook-forced concurrent bind duels (rendezvous between single-binding check and insertion); recorded histories checked with porcupine against a per-server-feature register model; race detector build",
          "held on sequential histories, forced duels and recorded concurrent histories; exploration", "porcupine timeout => inconclusive", "4/C09"),
  "C10": ("runtime monitor of registries, client-side bookkeeping, pending approvals (hook accessor), resolvability, events and the removed connection's tap around random teardowns, a third of them concurrent with other peers' traffic",
-         "held on generated teardown histories with three identically numbered peers; exploration", "absence of further datagrams is observed over 5x the configured approval timeout after quiescence", "4/C10"),
+         "held on generated teardown histories with three identically numbered peers, teardowns aimed at timer expiry, other peers' acknowledged registry calls placed inside the teardown window through a core-level handler, and reconnects with the same SKI and message counter; exploration", "absence of further datagrams is observed over 5x the configured approval timeout after quiescence", "4/C10"),
  "C11": ("retained-reference monitor: every DataCopy result and event payload is fingerprinted when obtained and re-fingerprinted after every later update; store fingerprint across non-persisting and failing updates; concurrent readers under the race detector",
-         "held on generated update histories over every list function and the use-case mutators; exploration", "fingerprint = canonical rendering with nil == empty list", "4/C11"),
+         "held on generated update histories over every list function and the use-case mutators, a third of them blind (nothing is read until the end, so the monitor cannot mask a copy-on-write slip), plus concurrent readers under the race detector; exploration", "fingerprint = canonical rendering with nil == empty list", "4/C11"),
  "C12": ("runtime monitor of approval callbacks, result datagrams and data around pending writes with logical time: long timeouts for answered plans, short for silent ones, hook gate to place the timeout inside the verdict window; plain and race builds",
          "held on generated and (thorough) enumerated verdict vectors and delivery orders; exploration", "wall clock is used only to wait for the stack's own timers; expiry of a wait is inconclusive", "4/C12"),
  "C13": ("runtime monitor of message counters on the tap (uniqueness under concurrency, interval issue order), notify cache lookup, and a reference model of unanswered requests for de-duplication incl. black-box bounded-memory probe; race build",
          "held on concurrent sender workloads and sequential request/response histories; exploration", "D19 (LRU promotion on lookup) is a known finding keyed by signature", "4/C13"),
  "C14": ("callback-identity monitor: closures log (callback, reference, feature, data fingerprint); invocation multiset compared with a per-feature reference of pending callbacks after quiescence; racing registrations accept both orders",
-         "held on generated registration/arrival histories incl. concurrent registration; exploration", "quiescence by goroutine-count baseline, watchdog => inconclusive", "4/C14"),
+         "held on generated registration/arrival histories incl. restricted (partial/selector/delete) replies on a populated cache, a bystander peer that disconnects, and concurrent registration; exploration", "quiescence by goroutine-count baseline, watchdog => inconclusive", "4/C14"),
  "C15": ("event-log monitor with unique tokens: exactly-once per (event, handler) under interval rules, core-before-application ordering, re-entrant handlers, progress watchdog; race build",
          "held on generated subscribe/unsubscribe/publish histories with several publishers; exploration", "publishing from inside a core handler is not demanded", "4/C15"),
  "C16": ("runtime monitor of heartbeat notifies on a subscribed tap plus hook records (stream enter/exit, chosen ticker period) and hook-forced Start/Stop windows; step-indexed period oracle; plain and race builds",
